@@ -17,8 +17,7 @@ namespace Fundraising
 open Fundraising.Gen Fundraising.Go
 
 /-- what `GetBidsByBidder` returns: the bidder's bids of ALL auctions, in store order -/
-def allBidsOf (s : Core) (bidder : Acc) : List Bid :=
-  (s.views.flatMap (·.bids)).filter (·.bidder == bidder)
+def allBidsOf (s : Core) (bidder : Acc) : List Bid := Go.rdBidsByBidder s bidder
 
 
 /-! ### helpers for `refinement_deliver` -/
@@ -80,7 +79,7 @@ theorem allBidsOf_filter (s : Core) (hwf : WF s) (bidder : Acc) (aid : Nat) (v :
     rw [hid]
     simp
     omega
-  unfold allBidsOf
+  unfold allBidsOf Go.rdBidsByBidder
   rw [hp, filter_swap, flat_filter_auction s.views hau aid v hv]
 
 /-- `hfresh` of `tie_deliver_place`: ids are `1 … length`, the counter is the length -/
@@ -108,32 +107,19 @@ def translatedDeliver (c : Ctx) : Msg → M Ctx
       else Go.runPlanNew c ({ a := default } : AView) (Gen.MsgServer_CreateBatchAuction m c.s.now (c.s.views.length : Int)).2
   | .cancel signer aid =>
     if Gen.MsgCancelAuction_ValidateBasic ⟨signer, aid⟩ then c.fail
-    else match c.s.views[aid]? with
-      | none => if (Gen.MsgServer_CancelAuction ⟨signer, aid⟩ default true c.s.bank).2.1 then c.fail else pure c
-      | some v => Go.runPlan c aid v (Gen.MsgServer_CancelAuction ⟨signer, aid⟩ v.a false c.s.bank).2
+    else Go.runPlanAt c aid (Gen.MsgServer_CancelAuction ⟨signer, aid⟩ (Go.rdAuction c.s) c.s.bank).2
   | .place bidder aid none price denom amt =>
     if Gen.MsgPlaceBid_ValidateBasic ⟨bidder, aid, none, price, denom, amt⟩ then c.fail else pure c
   | .place bidder aid (some t) price denom amt =>
     if Gen.MsgPlaceBid_ValidateBasic ⟨bidder, aid, some t, price, denom, amt⟩ then c.fail
-    else match c.s.views[aid]? with
-      | none =>
-        if (Gen.MsgServer_PlaceBid ⟨bidder, aid, t, price, denom, amt⟩ default true 0 [] default true).2.1 then c.fail else pure c
-      | some v =>
-        Go.runPlan c aid v (Gen.MsgServer_PlaceBid ⟨bidder, aid, t, price, denom, amt⟩ v.a false ((v.bidSeq + 1 : Nat) : Int)
-          (allBidsOf c.s bidder) ((lookupAllowed v.allowed bidder).getD default) (lookupAllowed v.allowed bidder).isNone).2
+    else Go.runPlanAt c aid (Gen.MsgServer_PlaceBid ⟨bidder, aid, t, price, denom, amt⟩
+          (Go.rdAuction c.s) (Go.rdNextBidId c.s) (Go.rdBidsByBidder c.s) (Go.rdAllowed c.s)).2
   | .modify bidder aid bidId price denom amt =>
     if Gen.MsgModifyBid_ValidateBasic ⟨bidder, aid, bidId, price, denom, amt⟩ then c.fail
-    else match c.s.views[aid]? with
-      | none =>
-        if (Gen.MsgServer_ModifyBid ⟨bidder, aid, bidId, price, denom, amt⟩ default true default true).2.1 then c.fail else pure c
-      | some v =>
-        Go.runPlan c aid v (Gen.MsgServer_ModifyBid ⟨bidder, aid, bidId, price, denom, amt⟩ v.a false
-          ((v.bids.find? (·.id == bidId)).getD default) (v.bids.find? (·.id == bidId)).isNone).2
+    else Go.runPlanAt c aid (Gen.MsgServer_ModifyBid ⟨bidder, aid, bidId, price, denom, amt⟩ (Go.rdAuction c.s) (Go.rdBid c.s)).2
   | .addAllowed aid ab =>
     if Gen.MsgAddAllowedBidder_ValidateBasic ⟨aid, ab⟩ then c.fail
-    else match c.s.views[aid]? with
-      | none => if (Gen.MsgServer_AddAllowedBidder ⟨aid, ab⟩ default true c.s.enableAdd).2.1 then c.fail else pure c
-      | some v => Go.runPlan c aid v (Gen.MsgServer_AddAllowedBidder ⟨aid, ab⟩ v.a false c.s.enableAdd).2
+    else Go.runPlanAt c aid (Gen.MsgServer_AddAllowedBidder ⟨aid, ab⟩ (Go.rdAuction c.s) c.s.enableAdd).2
   | .updateParams signer p =>
     if (Gen.MsgServer_UpdateParams ⟨signer, p⟩).2.1 then c.fail else pure { c with s := { c.s with params := p } }
 
@@ -153,10 +139,10 @@ theorem refinement_deliver (c : Ctx) (hwf : WF c.s) (m : Msg) : deliver c m = tr
     cases hv : c.s.views[aid]? with
     | some v =>
       rw [tie_deliver_cancel c signer aid v hv (hwf.views aid v hv).id]
-      simp only [translatedDeliver, hv]
+      simp only [translatedDeliver, Go.runPlanAt, hv]
     | none =>
-      have h1 := tie_CancelAuction_noAuction c signer aid hv default c.s.bank
-      simp only [translatedDeliver, hv, tie_MsgServer_CancelAuction, h1.2]
+      have h1 := tie_CancelAuction_noAuction c signer aid hv c.s.bank
+      simp only [translatedDeliver, Go.runPlanAt, hv, tie_MsgServer_CancelAuction, h1.2]
       simp only [deliver, handle, h1.1]
       cases hb : validateBasic (.cancel signer aid) <;>
         simp [Ctx.check, Ctx.fail, bind, Except.bind]
@@ -172,12 +158,13 @@ theorem refinement_deliver (c : Ctx) (hwf : WF c.s) (m : Msg) : deliver c m = tr
       cases hv : c.s.views[aid]? with
       | some v =>
         have W := hwf.views aid v hv
-        rw [tie_deliver_place c bidder aid t price denom amt (allBidsOf c.s bidder) v hv (fresh_of_wf W)
-          (allBidsOf_filter c.s hwf bidder aid v hv)]
-        simp only [translatedDeliver, hv]
+        rw [tie_deliver_place c bidder aid t price denom amt v hv (fresh_of_wf W)
+          (allBidsOf_filter c.s hwf bidder aid v hv) W.id]
+        simp only [translatedDeliver, Go.runPlanAt, hv]
       | none =>
-        have h1 := tie_PlaceBid_noAuction c bidder aid t price denom amt hv default 0 [] default true
-        simp only [translatedDeliver, hv, tie_MsgServer_PlaceBid, h1.2]
+        have h1 := tie_PlaceBid_noAuction c bidder aid t price denom amt hv
+          (Go.rdNextBidId c.s) (Go.rdBidsByBidder c.s) (Go.rdAllowed c.s)
+        simp only [translatedDeliver, Go.runPlanAt, hv, tie_MsgServer_PlaceBid, h1.2]
         simp only [deliver, handle, h1.1]
         cases hb : validateBasic (.place bidder aid (some t) price denom amt) <;>
           simp [Ctx.check, Ctx.fail, bind, Except.bind]
@@ -186,11 +173,11 @@ theorem refinement_deliver (c : Ctx) (hwf : WF c.s) (m : Msg) : deliver c m = tr
     | some v =>
       have W := hwf.views aid v hv
       rw [tie_deliver_modify c bidder aid bidId price denom amt v hv
-        (fun b hb => ⟨(W.bids b hb).amt, (W.bids b hb).price⟩)]
-      simp only [translatedDeliver, hv]
+        (fun b hb => ⟨(W.bids b hb).amt, (W.bids b hb).price⟩) (fun b hb => (W.bids b hb).auction)]
+      simp only [translatedDeliver, Go.runPlanAt, hv]
     | none =>
-      have h1 := tie_ModifyBid_noAuction c bidder aid bidId price denom amt hv default default true
-      simp only [translatedDeliver, hv, tie_MsgServer_ModifyBid, h1.2]
+      have h1 := tie_ModifyBid_noAuction c bidder aid bidId price denom amt hv (Go.rdBid c.s)
+      simp only [translatedDeliver, Go.runPlanAt, hv, tie_MsgServer_ModifyBid, h1.2]
       simp only [deliver, handle, h1.1]
       cases hb : validateBasic (.modify bidder aid bidId price denom amt) <;>
         simp [Ctx.check, Ctx.fail, bind, Except.bind]
@@ -207,13 +194,13 @@ theorem refinement_deliver (c : Ctx) (hwf : WF c.s) (m : Msg) : deliver c m = tr
       have hb : validateBasic (.addAllowed aid ab) = true := by simpa [validateBasic] using hacc
       cases hv : c.s.views[aid]? with
       | some v =>
-        simp only [translatedDeliver, hvb, hb, hv]
+        simp only [translatedDeliver, Go.runPlanAt, hvb, hb, hv]
         unfold deliver
-        rw [tie_MsgServer_AddAllowedBidder c aid ab hacc v hv]
+        rw [tie_MsgServer_AddAllowedBidder c aid ab hacc v hv (hwf.views aid v hv).id]
         simp [hb, Ctx.check, bind, Except.bind]
       | none =>
-        have h1 := tie_AddAllowedBidders_noAuction c aid [ab] hv default
-        simp only [translatedDeliver, hvb, hb, hv]
+        have h1 := tie_AddAllowedBidders_noAuction c aid [ab] hv
+        simp only [translatedDeliver, Go.runPlanAt, hvb, hb, hv]
         simp only [deliver, handle, Gen.MsgServer_AddAllowedBidder, h1.1, h1.2, hacc]
         cases he : c.s.enableAdd <;> simp [hb, Ctx.check, Ctx.fail, bind, Except.bind]
   | updateParams signer p =>
@@ -237,10 +224,7 @@ def translatedExec (c : Ctx) (a : Auction) : M Ctx :=
     match e.name with
     | .execStandBy => Go.runSettlePlan c a.id (Gen.ExecuteStandByStatus a c.s.now)
     | .execStarted => Go.runSettlePlan c a.id (Gen.ExecuteStartedStatus a c.s.now)
-    | .execVesting =>
-      match c.s.views[a.id]? with
-      | none => c.fail
-      | some v => Go.runSettlePlan c a.id (Gen.ReleaseVestingPayingCoin a v.vqs c.s.now)
+    | .execVesting => Go.runSettlePlan c a.id (Gen.ReleaseVestingPayingCoin a (Go.rdVqs c.s) c.s.now)
     | _ => c.fail .panic
   | _ => c.fail .panic
 
@@ -265,14 +249,14 @@ theorem translatedExec_eq_blockStep (c : Ctx) (aid : Nat) (v : AView) (hv : c.s.
   cases hst : v.a.status with
   | standby =>
     simp only [List.filterMap_cons, List.filterMap_nil, dispatchEff, hst, hid]
-    exact (tie_ExecuteStandByStatus c aid v hv hst).symm
+    exact (tie_ExecuteStandByStatus c aid v hv hst hid).symm
   | started =>
     simp only [List.filterMap_cons, List.filterMap_nil, dispatchEff, hst, hid]
     exact (tie_ExecuteStartedStatus c aid v hv hst W.auction.endNonempty).symm
   | vesting =>
-    simp only [List.filterMap_cons, List.filterMap_nil, dispatchEff, hst, hid, hv]
+    simp only [List.filterMap_cons, List.filterMap_nil, dispatchEff, hst, hid]
     rw [tie_ExecuteVestingStatus c aid v hv hst]
-    exact (tie_ReleaseVestingPayingCoin c aid v hv hid).symm
+    exact (tie_ReleaseVestingPayingCoin c aid v hv hid (fun q hq => (W.vqsWF q hq).2.2.2)).symm
   | finished =>
     simp only [List.filterMap_cons, List.filterMap_nil, dispatchEff, hst]
     exact (tie_blockStep_terminal c aid v hv (Or.inl hst)).1.symm
